@@ -127,6 +127,8 @@ type out struct {
 	nComment int
 	cmtAdj   bool // a comment was placed directly before or after a literal
 	ncbOps   map[*Expr]bool // binary nodes whose operator must not be preceded by a comment (known defect K7)
+	noCmtIn  map[*Expr]bool // unary nodes inside whose operand no comment is placed (known defect K7)
+	suppress int            // > 0: no comments
 }
 
 func newOut(t *rapid.T, noise int, comments bool) *out {
@@ -222,7 +224,7 @@ func (o *out) sep(tok tk) string {
 	if r < thr {
 		return def
 	}
-	cmtOK := o.comments && !tok.ncb && !(o.have && a.nca)
+	cmtOK := o.comments && !tok.ncb && !(o.have && a.nca) && o.suppress == 0
 	if r >= 92 {
 		if cmtOK {
 			c := o.comment()
@@ -343,7 +345,13 @@ func (o *out) expr(e *Expr) {
 	case "un":
 		o.label("op:unary" + e.Op)
 		o.emit(tk{s: e.Op, cls: "unop"})
+		if o.noCmtIn[e] {
+			o.suppress++
+		}
 		o.operand(e, e.A[0], false)
+		if o.noCmtIn[e] {
+			o.suppress--
+		}
 	case "int":
 		if len(e.V) > 1 && e.V[0] == '0' {
 			o.label("lit:int-octal")
